@@ -30,7 +30,7 @@ func (r *vrng) next() uint64 {
 	z = (z ^ (z >> 27)) * 0x94d049bb133111eb
 	return z ^ (z >> 31)
 }
-func (r *vrng) intn(n int) int { return int(r.next() % uint64(n)) }
+func (r *vrng) intn(n int) int      { return int(r.next() % uint64(n)) }
 func (r *vrng) chance(pct int) bool { return r.intn(100) < pct }
 
 func vseed() uint64 {
@@ -112,7 +112,7 @@ func (v *vtrace) close() {
 	v.f.Close()
 }
 
-func u(x uint64) string { return strconv.FormatUint(x, 10) }
+func u(x uint64) string  { return strconv.FormatUint(x, 10) }
 func i64(x int64) string { return strconv.FormatInt(x, 10) }
 func b2s(b bool) string {
 	if b {
